@@ -31,6 +31,12 @@ type Exp struct {
 	A    []Exp
 	O    []ExpField
 	Role string // "level" | "message" | "" (top-level fields only)
+
+	// hints for the CBOR representation (ignored by the JSON matcher)
+	CK   string // "" | bytes | hex | rawcbor | addr | ipnet | time | f32 | f64 | embjson
+	CB   []byte // raw payload for bytes/hex/rawcbor/addr/ipnet
+	CI   int64  // time: unix seconds ; ipnet: prefix length
+	CN   int64  // time: nanoseconds
 }
 
 type ExpField struct {
@@ -65,6 +71,9 @@ var null = Exp{Kind: "null"}
 // Model computes expectations under fixed settings.
 type Model struct {
 	Set Settings
+	// StrictCtx: GetCtx read inside a fresh sub-event (Dict(), Context.Object, Array.Object,
+	// Fields marshalers) must be the background context (C05); otherwise any string.
+	StrictCtx bool
 }
 
 // state of an event under construction
@@ -127,6 +136,16 @@ func (m Model) LevelText(l int) string {
 }
 
 func (m Model) float(bits uint64, size int) Exp {
+	e := m.float0(bits, size)
+	e.CK = "f64"
+	if size == 32 {
+		e.CK = "f32"
+	}
+	e.Bits = bits
+	return e
+}
+
+func (m Model) float0(bits uint64, size int) Exp {
 	var f float64
 	if size == 32 {
 		f = float64(math.Float32frombits(uint32(bits)))
@@ -151,6 +170,12 @@ func (m Model) float(bits uint64, size int) Exp {
 }
 
 func (m Model) time(t time.Time) Exp {
+	e := m.time0(t)
+	e.CK, e.CI, e.CN = "time", t.Unix(), int64(t.Nanosecond())
+	return e
+}
+
+func (m Model) time0(t time.Time) Exp {
 	switch f := m.Set.GoTimeFormat(); f {
 	case "":
 		return Exp{Kind: "num", S: strconv.FormatInt(t.Unix(), 10)}
@@ -200,7 +225,7 @@ func (m Model) iface(v interface{}) Exp {
 	if err != nil {
 		return strS(fmt.Sprintf("marshaling error: %v", err))
 	}
-	return Exp{Kind: "jsoneq", S: string(b)}
+	return Exp{Kind: "jsoneq", S: string(b), CK: "embjson"}
 }
 
 func (m Model) errVal(v Val, absentWhenNil bool) (Exp, bool) {
@@ -249,13 +274,19 @@ func (m Model) scalar(v Val, st *evState) Exp {
 		}
 		return str(v.S)
 	case "bytes":
-		return str(v.S)
+		e := str(v.S)
+		e.CK, e.CB = "bytes", v.S
+		return e
 	case "hex":
-		return strS(hex.EncodeToString(v.S))
+		e := strS(hex.EncodeToString(v.S))
+		e.CK, e.CB = "hex", v.S
+		return e
 	case "rawjson":
-		return Exp{Kind: "jsoneq", S: string(v.S)}
+		return Exp{Kind: "jsoneq", S: string(v.S), CK: "embjson"}
 	case "rawcbor":
-		return strS("data:application/cbor;base64," + base64.StdEncoding.EncodeToString(v.S))
+		e := strS("data:application/cbor;base64," + base64.StdEncoding.EncodeToString(v.S))
+		e.CK, e.CB = "rawcbor", v.S
+		return e
 	case "bool":
 		return Exp{Kind: "bool", B: v.B}
 	case "int", "int8", "int16", "int32", "int64":
@@ -288,12 +319,18 @@ func (m Model) scalar(v Val, st *evState) Exp {
 		}
 		return strS(reflect.TypeOf(g).String())
 	case "ip":
-		return strS(ip(v).String())
+		e := strS(ip(v).String())
+		e.CK, e.CB = "addr", ip(v)
+		return e
 	case "ipnet":
 		n := ipnet(v)
-		return strS(n.String())
+		e := strS(n.String())
+		e.CK, e.CB, e.CI = "ipnet", n.IP, int64(v.Bits)
+		return e
 	case "mac":
-		return strS(mac(v).String())
+		e := strS(mac(v).String())
+		e.CK, e.CB = "addr", mac(v)
+		return e
 	case "nil":
 		return null
 	}
@@ -418,7 +455,7 @@ func (m Model) opsFieldsCx(ops []Op, where string, st *evState, cx *ctxEffects) 
 				out = append(out, ExpField{m.callerField(), Exp{Kind: "anystr"}})
 			}
 		case "getctx":
-			if st.fresh {
+			if st.fresh && !m.StrictCtx && st.ctx == "" {
 				out = append(out, ExpField{k, Exp{Kind: "anystr"}})
 			} else {
 				out = append(out, ExpField{k, strS(st.ctx)})
